@@ -314,6 +314,31 @@ CHECKS = {'C01': {'level': 'exploration',
                     'checks': {'quick': 6, 'thorough': 120},
                     'shards': {'quick': 1, 'thorough': 2},
                     'timeout': {'quick': 900, 'thorough': 3400}}]},
+ 'C18': {'level': 'exploration',
+         'rule': 'generated concurrent programs (rapid): 4..16 goroutines drawn from 11 worker kinds - transactions growing the collection across '
+                 'blocks (with bulk deletes and reuse), point reads of every column kind, filtered iteration (index / typed / value filters), '
+                 'aggregates, insert+delete with TTL, Snapshot, Restore into OTHER collections, CreateIndex/DropIndex, key operations, '
+                 'updates/merges incl. enum/string/bool, CreateSortIndex/Ascend - beside a 5 ms vacuum, run with real parallelism on 16 cores in a '
+                 '-race binary (GORACE halt_on_error=0) for a fixed time per program; every goroutine is under a 30 s watchdog after the stop '
+                 'signal. Oracle: the Go race detector (happens-before based: it needs the unsynchronised accesses to occur, not the harmful '
+                 'interleaving); its reports are parsed, reduced to the unordered pair of innermost github.com/kelindar/column frames and '
+                 "de-duplicated; a pair is attributed to a listed finding when either side matches the finding's mutator pattern, any other pair is "
+                 'a violation; a watchdog expiry is a violation. Serialized schedules explored by the cooperative scheduler in the C06/C08/C09/C15 '
+                 'runs report a step that never completes as a hang in those runs. non-trivial = a program in which new blocks were added while '
+                 'readers ran AND >=1 snapshot and >=1 index build overlapped writers (measured with counters); distinct = the generated program',
+         'assumptions': ['the race detector only reports races that actually execute in the run',
+                         "which listed finding a report belongs to is decided by the unsynchronised mutator's function name (known_findings.txt "
+                         'race=<regex>)'],
+         'tests': [{'run': '^TestC18Race$',
+                    'race': True,
+                    'checks': {'quick': 30, 'thorough': 600},
+                    'shards': {'quick': 1, 'thorough': 2},
+                    'env': {'VERIF_C18_MS': {'quick': 400, 'thorough': 1500}},
+                    'timeout': {'quick': 900, 'thorough': 3400}},
+                   {'run': '^TestC18Targeted$',
+                    'race': True,
+                    'env': {'VERIF_C18_MS': {'quick': 500, 'thorough': 2000}},
+                    'timeout': {'quick': 900, 'thorough': 3400}}]},
  'C19': {'level': 'exploration',
          'rule': 'model-based stateful histories on numeric and string columns (all widths, additive / order-sensitive / same-length merge '
                  'functions): transactions with puts, merges, several writes to one row, own-insert updates, deletes, rollbacks, multi-block '
